@@ -92,6 +92,33 @@ def run(repo='/repo', tier='quick'):
             res.check(ok, 'C16.b', f.name + ':in=TUNNEL-implies-out=TUNNEL', 'every path that sets in_status = TUNNEL goes on to set out_status = TUNNEL',
                       'a path sets in_status = TUNNEL without out_status = TUNNEL', x['loc'])
 
+    # --- C16.e the response side releases a suspended request side only for a refused CONNECT
+    res.rule('C16.e', 'only the refused-CONNECT arms of the response side may put the request side back to DATA; a 2xx answer leaves it suspended until the tunnel probe decides')
+    in_side = set(P.state_functions(db, 'in')) | {'htp_connp_req_data', 'htp_connp_create', 'htp_connp_open', 'htp_connp_close', 'htp_connp_req_close'}
+    nrel = 0
+    for n, f in sorted(db.fn.items()):
+        if n in in_side:
+            continue
+        for b, i, x in P.field_writes(f, 'in_status'):
+            if x['k'] != 'assign' or lit_name(x['r']) == 'HTP_STREAM_TUNNEL':
+                continue
+            nrel += 1
+            val = lit_name(x['r'])
+            npth, bad = 0, None
+            for atoms, events, end, seq in P.enum_paths_seq(f, (f.entry, -1), stop=lambda bb, ii, st: (bb, ii) == (b, i), max_paths=5000, must_reach=b):
+                if end[0] != 'stop':
+                    continue
+                npth += 1
+                facts = [a for a, bb in atoms]
+                connect = any(a[0].endswith('request_method_number') and a[1] == '==' and a[2] == 'HTP_M_CONNECT' for a in facts)
+                not2xx = any(a[0].endswith('response_status_number') and ((a[1] == '<' and a[2] == '200') or (a[1] == '>' and a[2] == '299')) for a in facts)
+                if not (val == 'HTP_STREAM_DATA' and connect and not2xx):
+                    bad = facts
+            key = '%s:in_status=%s' % (n, val)
+            res.check(bad is None and npth > 0, 'C16.e', key, 'all %d paths to this write are in a refused-CONNECT arm (method CONNECT, status outside 200..299)' % npth,
+                      '%s sets in_status = %s on a path that is not a refused-CONNECT arm: after a 2xx answer the request side would resume before the tunnel probe (or a stopped/failed request side would be revived)' % (n, val), x['loc'])
+    res.floor('C16.e', 'cross-direction writes of in_status', nrel, 1)
+
     # --- C16.c
     for name in ('htp_connp_REQ_CONNECT_CHECK', 'htp_connp_REQ_CONNECT_WAIT_RESPONSE'):
         f = db.get(name)
